@@ -171,17 +171,38 @@ class RandShim:
 LAST_NP = None
 
 
+def _gen_modules():
+    """Every matchingproblems.generator module that names numpy as `np` or the
+    random module as `random`: the RNG is owned wherever the generator can
+    reach it, not only in generator_shared."""
+    import sys
+    import matchingproblems.generator.generator  # noqa: load the package
+    out = []
+    for name, mod in list(sys.modules.items()):
+        if name.startswith("matchingproblems.generator") and mod is not None:
+            out.append(mod)
+    return out
+
+
 def install(env):
     global LAST_NP
-    import matchingproblems.generator.generator_shared as gs
-    gs.np = LAST_NP = NpShim(env)
-    gs.random = RandShim(env)
+    LAST_NP = NpShim(env)
+    rs = RandShim(env)
+    for mod in _gen_modules():
+        cur = getattr(mod, "np", None)
+        if cur is _np or isinstance(cur, NpShim):
+            mod.np = LAST_NP
+        cur = getattr(mod, "random", None)
+        if cur is _random or isinstance(cur, RandShim):
+            mod.random = rs
 
 
 def uninstall():
-    import matchingproblems.generator.generator_shared as gs
-    gs.np = _np
-    gs.random = _random
+    for mod in _gen_modules():
+        if isinstance(getattr(mod, "np", None), NpShim):
+            mod.np = _np
+        if isinstance(getattr(mod, "random", None), RandShim):
+            mod.random = _random
 
 
 def outdir(tag="gen"):
